@@ -126,6 +126,42 @@ REFACTORS = [
 ]
 
 
+VERIF_DIR = os.path.dirname(os.path.dirname(os.path.abspath(__file__)))
+
+
+def patch_corpora():
+    """patch-file corpora: the sub-agent seeds (must be refuted by the checks recorded in their meta.json)
+    and the agent-written behaviour-preserving refactorings (must stay silent)"""
+    import json
+    muts, refs = [], []
+    sd = os.path.join(VERIF_DIR, 'seeded')
+    for sid in sorted(os.listdir(sd)) if os.path.isdir(sd) else []:
+        mp, pp = os.path.join(sd, sid, 'meta.json'), os.path.join(sd, sid, 'patch.diff')
+        if os.path.exists(mp) and os.path.exists(pp):
+            m = json.load(open(mp))
+            props_ = m.get('detected_by') or []
+            if props_:
+                muts.append(('seed_' + sid, props_, 'C', [('@patch', pp)], 'seeded change %s (breaks %s)' % (sid, m.get('property'))))
+    rd = os.path.join(VERIF_DIR, 'corpus', 'refactors')
+    for rid in sorted(os.listdir(rd)) if os.path.isdir(rd) else []:
+        pp = os.path.join(rd, rid, 'patch.diff')
+        if not os.path.exists(pp):
+            continue
+        t = open(pp).read()
+        ps = set()
+        if 'pessimistic_lock' in t or 'optimistic_lock' in t or 'lock/common.hpp' in t:
+            ps |= {'C01', 'C02', 'C03', 'C07', 'C08', 'C09', 'C10', 'C13'}
+        if 'mcs_lock' in t or 'lock/common.hpp' in t:
+            ps |= {'C01', 'C02', 'C07', 'C08', 'C10', 'C11', 'C12'}
+        if 'thread/' in t:
+            ps |= {'C04', 'C05', 'C14', 'C15', 'C16', 'C17', 'C20'}
+        if 'zipf' in t:
+            ps |= {'C06', 'C19'}
+        note = os.path.join(rd, rid, 'note.txt')
+        refs.append(('ref_' + rid, sorted(ps), [('@patch', pp)], (open(note).read().strip()[:100] if os.path.exists(note) else 'agent-written refactoring')))
+    return muts, refs
+
+
 def make_scratch(edits, base=None):
     base = base or BASE_REPO
     d = tempfile.mkdtemp(prefix='cppu-mut-')
@@ -135,7 +171,14 @@ def make_scratch(edits, base=None):
             shutil.copytree(s, os.path.join(d, item))
         else:
             shutil.copy(s, os.path.join(d, item))
-    for (f, old, new, occ) in edits:
+    for ed in edits:
+        if ed[0] == '@patch':
+            r = subprocess.run('patch -p1 -s -d %s < %s' % (d, ed[1]), shell=True, capture_output=True, text=True)
+            if r.returncode != 0:
+                shutil.rmtree(d, ignore_errors=True)
+                return None, 'patch %s does not apply to the current tree' % ed[1]
+            continue
+        (f, old, new, occ) = ed
         p = os.path.join(d, f)
         txt = open(p).read()
         c = txt.count(old)
@@ -168,7 +211,7 @@ def run_one(args):
     if d is None:
         return {'id': mid, 'pid': pid, 'status': 'skipped', 'why': why}
     try:
-        srcs = sorted({e[0] for e in edits if e[0].endswith('.cpp')}) or []
+        srcs = sorted({e[0] for e in edits if e[0] != '@patch' and e[0].endswith('.cpp')}) or []
         allsrc = [os.path.join(dp, f)[len(d) + 1:] for dp, _, fs in os.walk(os.path.join(d, 'src')) for f in fs if f.endswith('.cpp')]
         ok, err = compiles(d, srcs if srcs else allsrc)
         if not ok:
@@ -186,11 +229,12 @@ def run_one(args):
 
 def run_corpus(pids=None, only=None, workers=16):
     jobs = []
-    for (mid, props_, rule, edits, desc) in MUTANTS:
+    pm, pr = patch_corpora()
+    for (mid, props_, rule, edits, desc) in MUTANTS + pm:
         for pid in props_:
             if (pids is None or pid in pids) and (only is None or mid in only):
                 jobs.append(('M', mid, pid, rule, edits, desc))
-    for (mid, props_, edits, desc) in REFACTORS:
+    for (mid, props_, edits, desc) in REFACTORS + pr:
         for pid in props_:
             if (pids is None or pid in pids) and (only is None or mid in only):
                 jobs.append(('R', mid, pid, None, edits, desc))
